@@ -149,7 +149,15 @@ static void do_dispatch(const std::string &line, const J &in, FILE *out) {
                 // (2) with location buffer
                 calls.clear(); dflt_calls = 0; Cap d2; char loc[256]; memset(loc, 0x7e, sizeof loc); loc[0] = 0; d2.obj = &root_obj; d2.loc = loc; d2.loc_size = sizeof loc;
                 top->dispatch((const char *)mb.p, d2, true); auto c2 = calls; int df2 = dflt_calls;
+                // (3) with a location buffer that holds the address exactly, and (4) one that is three bytes too short: loc_size is "the length of the buffer" (ports.h) -
+                // nothing may be written behind it; what a dispatch does when the address does not fit is not specified, only that it stays inside
+                std::vector<Call> c3; int m3 = -1, asan_tight = 0, asan_short = 0;
+                { size_t need = addr.size() + 1; FlushBuf lb(need); memset(lb.p, 0x7e, need); lb.p[0] = 0; calls.clear(); dflt_calls = 0; Cap d3; d3.obj = &root_obj; d3.loc = (char *)lb.p; d3.loc_size = need; int h3 = vg_asan_hits;
+                  top->dispatch((const char *)mb.p, d3, true); c3 = calls; m3 = d3.matches; asan_tight = vg_asan_hits - h3; }
+                if (addr.size() > 4) { size_t sz = addr.size() - 2; FlushBuf lb(sz); memset(lb.p, 0x7e, sz); lb.p[0] = 0; calls.clear(); dflt_calls = 0; Cap d4; d4.obj = &root_obj; d4.loc = (char *)lb.p; d4.loc_size = sz; int h4 = vg_asan_hits;
+                  top->dispatch((const char *)mb.p, d4, true); asan_short = vg_asan_hits - h4; }
                 w.obj().kbytes("addr", (const uint8_t *)ja.text().data(), ja.text().size()).kbytes("tags", (const uint8_t *)TAGS[t], strlen(TAGS[t]));
+                w.key("tight"); calls_json(w, c3); w.knum("matches_tight", m3).knum("asan_tight", asan_tight).knum("asan_short", asan_short);
                 w.key("noloc"); calls_json(w, c1); w.key("loc"); calls_json(w, c2);
                 w.knum("matches_noloc", d1.matches).knum("matches", d2.matches).knum("dflt_noloc", df1).knum("dflt", df2).kbool("obj_restored", objrest1 && d2.obj == &root_obj)
                  .kbytes("loc_after", (const uint8_t *)loc, strnlen(loc, sizeof loc)).knum("asan", vg_asan_hits - h0).end_obj();
@@ -165,9 +173,10 @@ static void do_dispatch(const std::string &line, const J &in, FILE *out) {
 }
 
 // ---------------------------------------------------------------- walk (C09) + lookup (C18)
-struct WalkRec { int id; std::string addr; };
+struct WalkRec { int id; std::string addr; long part_off; };
 static std::vector<WalkRec> walked;
-static void walker(const Port *p, const char *name, const char *, const Ports &, void *, void *) { walked.push_back({port_ids.count(p) ? port_ids[p] : -1, name}); }
+static void walker(const Port *p, const char *name, const char *old_end, const Ports &, void *, void *) { size_t n = strlen(name);
+    walked.push_back({port_ids.count(p) ? port_ids[p] : -1, name, (old_end >= name && old_end <= name + n) ? (long)(old_end - name) : -1L}); }
 
 static void do_walk(const std::string &line, const J &in, FILE *out) {
     const J &tb = in["table"]; std::vector<int> none;
@@ -186,7 +195,7 @@ static void do_walk(const std::string &line, const J &in, FILE *out) {
             walked.clear(); int h0 = vg_asan_hits;
             walk_ports(&root->ports, buf, sizeof buf, nullptr, walker, true, use_rt ? (void *)&root_obj : nullptr, false);
             w.obj().kbytes("prefix", (const uint8_t *)PREF[pf], strlen(PREF[pf])).kbytes("after", (const uint8_t *)buf, strnlen(buf, sizeof buf));
-            w.key("walked").arr(); for (auto &r : walked) { w.obj().knum("id", r.id).kbytes("addr", (const uint8_t *)r.addr.data(), r.addr.size()).end_obj(); } w.end_arr();
+            w.key("walked").arr(); for (auto &r : walked) { w.obj().knum("id", r.id).kbytes("addr", (const uint8_t *)r.addr.data(), r.addr.size()).knum("part_off", r.part_off).end_obj(); } w.end_arr();
             // every reported address, sent as a message, must reach the port it was reported with; and lookup must return it
             w.key("reach").arr();
             if (pf < 2 && !(in.has("multi") && in["multi"].b)) for (auto &r : walked) {
@@ -255,7 +264,7 @@ static void do_walksugar(const std::string &line, const J &in, FILE *out) {
             walked.clear(); int h0 = vg_asan_hits;
             walk_ports(&W::ports, buf, sizeof buf, nullptr, walker, true, use_rt ? (void *)&app : nullptr, false);
             w.obj().kbytes("prefix", (const uint8_t *)PREF[pf], strlen(PREF[pf])).kbytes("after", (const uint8_t *)buf, strnlen(buf, sizeof buf));
-            w.key("walked").arr(); for (auto &r : walked) { w.obj().knum("id", r.id).kbytes("addr", (const uint8_t *)r.addr.data(), r.addr.size()).end_obj(); } w.end_arr();
+            w.key("walked").arr(); for (auto &r : walked) { w.obj().knum("id", r.id).kbytes("addr", (const uint8_t *)r.addr.data(), r.addr.size()).knum("part_off", r.part_off).end_obj(); } w.end_arr();
             w.key("reach").arr().end_arr().knum("asan", vg_asan_hits - h0).end_obj();
         } });
     w.end_arr().knum("sig", sig).kstr("asan_what", vg_asan_first).end_obj();
@@ -345,7 +354,8 @@ static void do_search(const std::string &line, const J &in, FILE *out) {
             char m[512]; size_t mn = rtosc_message(m, sizeof m, "/path-search", "ss", loc.c_str(), needle.c_str());
             FlushBuf mb(mn); memcpy(mb.p, m, mn);
             size_t cap = 8192; FlushBuf rb(cap); memset(rb.p, 0xA5, cap); int h0 = vg_asan_hits;
-            size_t n = path_search(root->ports, (const char *)mb.p, 64, (char *)rb.p, cap, (path_search_opts)opt, wq);
+            size_t maxp = q.has("max") ? (size_t)q["max"].num() : 64;      // "the maximum number of child ports" (ports.h): exactly as many as there are, or plenty
+            size_t n = path_search(root->ports, (const char *)mb.p, maxp, (char *)rb.p, cap, (path_search_opts)opt, wq);
             w.obj().kbytes("loc", (const uint8_t *)loc.data(), loc.size()).kbytes("needle", (const uint8_t *)needle.data(), needle.size()).knum("opt", opt).kbool("with_query", wq)
              .knum("ret", (long long)n).kbytes("reply", rb.p, n <= cap ? n : 0).kbool("valid", n && n <= cap && rtosc_valid_message_p((const char *)rb.p, n)).knum("asan", vg_asan_hits - h0).end_obj();
         } });
